@@ -2,6 +2,8 @@ import RedisVerif.Model.SimRng
 import RedisVerif.Model.SimKernel
 import RedisVerif.Model.SimHarness
 import RedisVerif.Lemmas.Sim
+import RedisVerif.Model.SimMore
+import RedisVerif.Lemmas.SimMore
 
 /-!
 # C20 — Simulation is reproducible: same seed, same trace, same verdict
@@ -38,7 +40,7 @@ claimed here is different (DESIGN §4 C20):
 namespace RedisVerif
 namespace C20
 
-open SimRng SimKernel SimHarness SimLemmas
+open SimRng SimKernel SimHarness SimLemmas SimMore SimMoreLemmas
 
 /-! ## T3 — the RNG wrappers -/
 
@@ -529,6 +531,211 @@ theorem wal_recover_file_table (a b c : Nat) :
 theorem wal_crash_pointwise (w : Wal) :
     (wCrash.run w).toOption.map (fun r => r.2.files) =
       some (w.files.map fun f => { f with items := f.items.take f.synced }) := rfl
+
+/-! ## T4 — whole runs: the trace does not depend on the hidden inputs the models make explicit
+
+The step-level results above are lifted to whole runs, and three more harness models carry an
+explicit `env`-like parameter: the iteration order `pi` of a hash container, the command executor
+(`exec`: where a wall-clock read or an arbitrary pick of the system under test would enter), the
+persistence / store side of a workload-driven harness (`store`: wall clock of `ProductionClock`,
+`created_at_ms`, real sleeps, the BUGGIFY context). -/
+
+/-- full strength, whole run: the trace of a `DSTSimulation` run (every step's node states and the
+    result line, as text) is the same whatever order `CrashSimulator::node_states` is iterated in.
+    Parameter: the variant of `crashed_nodes()` (`true` = current code). -/
+def C20_dst_run_independent_of_map_order (sorted : Bool) : Prop :=
+  ∀ (seed ops : Nat) (c : DstCfg) (pi pi' : List Nat), c.sortedNodes = sorted → pi.Perm pi' →
+    runDst seed ops c pi = runDst seed ops c pi'
+
+theorem dst_run_order_independent : C20_dst_run_independent_of_map_order true := by
+  intro seed ops c pi pi' hs hp
+  unfold runDst
+  cases dstInit chacha c (Rng.new seed.toUInt64) with
+  | error e => rfl
+  | ok d => simp only [bind, Except.bind, dstLoop_perm c pi pi' hs hp]
+
+/-- the same over ANY generator, as states: `ops` consecutive steps -/
+def C20_dst_states_independent_of_map_order (sorted : Bool) : Prop :=
+  ∀ (σ : Type) (S : Sampler σ) (c : DstCfg) (pi pi' : List Nat) (ops : Nat) (d : Dst σ), c.sortedNodes = sorted →
+    pi.Perm pi' → (dstRun S c pi ops d).toOption.map (·.nodes) = (dstRun S c pi' ops d).toOption.map (·.nodes)
+
+theorem dst_states_order_independent : C20_dst_states_independent_of_map_order true := by
+  intro σ S c pi pi' ops d hs hp
+  unfold dstRun
+  rw [repeatM_congr _ _ (fun a => dstStep_perm S c pi pi' a hs hp)]
+
+/-- the pinned variant, over three whole steps: two nodes go down in the first step; which one is
+    recovering after the third depends on the map order -/
+theorem dst_states_depend_on_map_order_counterexample : ¬ C20_dst_states_independent_of_map_order false := by
+  intro h
+  have := h (List Nat) scripted { cfg2 with enableCrash := true, crashProb := 0x3FF0000000000000 } [0, 1] [1, 0] 2
+    { g := [5, 0, 0, 0, 0, 5, 1, 7, 0], now := 0, nodes := [.running, .running] } rfl (List.Perm.swap 1 0 [])
+  revert this
+  decide
+
+/-- non-vacuity of the sorted statement on the same data: both orders give the same states -/
+example : (dstRun scripted { cfg2 with enableCrash := true, crashProb := 0x3FF0000000000000, sortedNodes := true } [1, 0] 2
+    { g := [5, 0, 0, 0, 0, 5, 1, 7, 0], now := 0, nodes := [.running, .running] }).toOption.map (·.nodes) =
+    some [.recovering 12 119, .crashed 6] := by decide
+
+/-- `RedisDSTSimulation` embeds `DSTSimulation::step`: its whole trace (operation history with
+    keys, values, replies and times, result, statistics) is independent of the map order too — any
+    generator, any key distribution -/
+def C20_redis_dst_run_independent_of_map_order (sorted : Bool) : Prop :=
+  ∀ (σ : Type) (S : Sampler σ) (c : RCfg) (pi pi' : List Nat) (ops : Nat) (g : σ), c.dst.sortedNodes = sorted →
+    pi.Perm pi' → redisLines S c pi ops g = redisLines S c pi' ops g
+
+theorem redis_dst_run_order_independent : C20_redis_dst_run_independent_of_map_order true := by
+  intro σ S c pi pi' ops g hs hp
+  unfold redisLines
+  cases redisInit S c g with
+  | error e => rfl
+  | ok s0 => simp only [bind, Except.bind, redisLoop_perm S c pi pi' hs hp]
+
+/-- non-vacuity: a two-node run over the scripted generator produces a history line -/
+example : (redisLines scripted ⟨{ cfg2 with sortedNodes := true }, false, .uniform 5⟩ [1, 0] 1
+    [3, 2, 0, 4, 8, 1, 3, 77, 9, 0, 2, 5, 0, 1, 0, 1, 1, 4, 4, 4, 9, 1, 2, 3, 4, 5, 6, 7, 8, 9]).toOption.map (·.length) = some 7 := by decide
+
+/-- full strength: the invoke / complete time of every operation of a scenario
+    (`ScenarioBuilder::run` and `run_with_eviction`) is the same whatever the command executor
+    answers and however it evolves — two arbitrary executors over arbitrary state and reply types.
+    A reply that depends on a hidden input (the wall clock of `ACL GENPASS`, the member `SPOP`
+    picks, the order of `KEYS`) can therefore not shift the timeline, and neither can eviction. -/
+def C20_scenario_timing_independent_of_executor : Prop :=
+  ∀ (ε ρ ε' ρ' : Type) (exec : ε → Nat → Nat → ε × ρ) (exec' : ε' → Nat → Nat → ε' × ρ')
+    (evict : ε → Nat → ε) (evict' : ε' → Nat → ε') (seed : Nat) (c : ScCfg) (script : List ScOp) (e0 : ε) (e0' : ε'),
+    timing (scenario exec evict seed c script e0) = timing (scenario exec' evict' seed c script e0')
+
+theorem scenario_timing_independent_of_executor : C20_scenario_timing_independent_of_executor := by
+  intro ε ρ ε' ρ' exec exec' evict evict' seed c script e0 e0'
+  have h0 : ScSim ({ rng := Rng.new seed.toUInt64, ex := e0 } : ScSt ε ρ) ({ rng := Rng.new seed.toUInt64, ex := e0' } : ScSt ε' ρ') :=
+    ⟨rfl, rfl, rfl⟩
+  unfold timing scenario
+  simp only
+  split
+  · obtain ⟨_, hn, hl⟩ := scRun_sim exec exec' c (enumOps (sortByTime script)) _ _ h0
+    simp only [List.map_reverse, hl, hn]
+  · obtain ⟨_, hn, hl⟩ := scEvictLoop_sim exec exec' evict evict' c (lastTime script) (script.length + lastTime script / c.evictMs + 3)
+      (enumOps (sortByTime script)) c.evictMs _ _ h0
+    simp only [List.map_reverse, hl, hn]
+
+/-- the script is executed in time order, ties in the order given (stable sort) -/
+example : sortByTime [⟨5, 0⟩, ⟨3, 1⟩, ⟨5, 2⟩, ⟨3, 3⟩] = [⟨3, 1⟩, ⟨3, 3⟩, ⟨5, 0⟩, ⟨5, 2⟩] := by decide
+
+/-- without BUGGIFY delays an operation completes when it is invoked, at its scripted time; the
+    final time is the last scripted time (no generator state needed) -/
+example : timing (scenario (ε := Unit) (ρ := Unit) (fun _ _ _ => ((), ())) (fun _ _ => ()) 7 ⟨false, F64.ofBits 0, 0⟩ [⟨5, 0⟩, ⟨3, 1⟩] ()) =
+    ([(1, 3, 3), (0, 5, 5)], 5) := by
+  unfold timing scenario
+  rfl
+
+/-- full strength: the operations a workload-driven harness records (`StreamingDSTHarness`,
+    `CompactionDSTHarness`: one `next_operation()` per step, handed to the persistence side) are
+    exactly the workload's, whatever the persistence / store side does and reads — any state
+    machine `store`, any outcome type -/
+def C20_workload_ops_independent_of_store : Prop :=
+  ∀ (τ ω : Type) (store : τ → WOp → τ × ω) (ops : List WOp) (t : τ), (harnessLoop store ops t).map (·.1) = ops
+
+theorem workload_ops_independent_of_store : C20_workload_ops_independent_of_store :=
+  fun _ _ store ops t => harnessLoop_ops store ops t
+
+example : (harnessLoop (fun (n : Nat) (o : WOp) => (n + 1, decide (o = .flush) || n % 2 == 0)) [.write 3, .flush, .delete 3, .first] 0) =
+    [(.write 3, true), (.flush, true), (.delete 3, true), (.first, false)] := by decide
+
+set_option maxRecDepth 8000 in
+/-- the probability bands of `next_operation` on the extreme rolls: word 0 is roll 0.0 (below any
+    positive probability), the largest word rounds to 2^64 = roll 1.0 (below no probability ≤ 1) -/
+theorem workload_roll_table :
+    rollLt 0 (F64.ofBits 0x3F947AE147AE147B) = true ∧ rollLt 0 (F64.ofBits 0) = false ∧
+    rollLt (2 ^ 64 - 1) (F64.ofBits 0x3FF0000000000000) = false ∧ rollLt (2 ^ 63) (F64.ofBits 0x3FE0000000000000) = false ∧
+    rollLt (2 ^ 63 - 1024) (F64.ofBits 0x3FE0000000000000) = true := by decide
+
+/-! ### `check_invariants` of hash_dst / set_dst: the shadow `HashSet` is iterated -/
+
+/-- full strength: WHETHER `check_invariants` fails (hence `invariant_violations`, `is_success`, the
+    early stop of `run`) does not depend on the order in which the shadow set is visited nor on how
+    the set differences are rendered — for ANY implementation of the data structure, correct or not -/
+def C20_hash_check_verdict_independent_of_order : Prop :=
+  ∀ (fmt fmt' : NSet → String) (impl : Impl) (expected pi pi' : NSet), pi.Perm pi' →
+    isOk (hashCheck fmt impl expected pi) = isOk (hashCheck fmt' impl expected pi')
+
+theorem hash_check_verdict_independent_of_order : C20_hash_check_verdict_independent_of_order := by
+  intro fmt fmt' impl expected pi pi' hp
+  rw [hashCheck_isOk, hashCheck_isOk]
+  unfold hashCheckOk
+  rw [find?_isNone_perm (fun f => !impl.exists_ f) pi pi' hp, find?_isNone_perm (fun f => !impl.getSome f) pi pi' hp]
+
+/-- full strength for the TEXT: the message `check_invariants` returns is the same for every
+    visiting order -/
+def C20_hash_check_text_independent_of_order : Prop :=
+  ∀ (impl : Impl) (expected pi pi' : NSet), pi.Perm pi' →
+    errText (hashCheck showSet impl expected pi) = errText (hashCheck showSet impl expected pi')
+
+/-- … it is not: with two fields missing from a buggy structure the FIRST one in hash order is
+    named (latent: reached only when the data structure under test is wrong) -/
+theorem hash_check_text_depends_on_order_counterexample : ¬ C20_hash_check_text_independent_of_order := by
+  intro h
+  have := h { len := 2, isEmpty := false, exists_ := fun _ => false, getSome := fun _ => false, keys := [] } [1, 2] [1, 2] [2, 1]
+    (List.Perm.swap 2 1 [])
+  revert this
+  decide
+
+/-- a data structure that meets its specification passes for every visiting order: the `viol=0`
+    the typed harness models predict does not depend on the hash seed -/
+theorem hash_check_ok_for_spec (fmt : NSet → String) (fields pi : NSet) (hp : pi.Perm fields) :
+    isOk (hashCheck fmt (specImpl fields) fields pi) = true := by
+  have hnone : pi.find? (fun f => !fields.contains f) = none := by
+    apply List.find?_eq_none.mpr
+    intro x hx
+    have : x ∈ fields := hp.mem_iff.mp hx
+    simp [this]
+  rw [hashCheck_isOk]
+  simp [hashCheckOk, specImpl, hnone]
+  exact fun x hx => hp.mem_iff.mp hx
+
+example : isOk (hashCheck showSet (specImpl [1, 4, 9]) [1, 4, 9] [9, 1, 4]) = true := by decide
+
+/-! ### a final-state accessor that lists a `HashMap` -/
+
+def C20_accessor_independent_of_map_order (sorted : Bool) : Prop :=
+  ∀ (pi pi' : List Nat), pi.Perm pi' → getAllDeltas sorted pi = getAllDeltas sorted pi'
+
+/-- the code as it is: the accessor's result is the map order
+    (`C20:accessor-in-map-order:multi-node-api:get_all_deltas`, replayed on every run) -/
+theorem accessor_order_depends_on_map_order_counterexample : ¬ C20_accessor_independent_of_map_order false := by
+  intro h
+  have := h [0, 1] [1, 0] (List.Perm.swap 1 0 [])
+  revert this
+  decide
+
+/-- the repaired code: independent of the map order -/
+theorem accessor_sorted_order_independent : C20_accessor_independent_of_map_order true := by
+  intro pi pi' hp
+  simp only [getAllDeltas, if_true]
+  exact sortNat_perm_invariant _ _ hp
+
+example : getAllDeltas true [3, 1, 2] = [1, 2, 3] ∧ getAllDeltas false [3, 1, 2] = [3, 1, 2] := by decide
+
+/-! ### BUGGIFY statistics in the result -/
+
+/-- full strength: what a simulation reports does not depend on what ran earlier on the thread.
+    Parameter: does creating a simulation reset the thread's statistics (`true`: fixes-sim-s3). -/
+def C20_result_stats_independent_of_earlier_runs (resetsOnCreate : Bool) : Prop :=
+  ∀ (prev prev' own : NMap Nat), finalizeStats resetsOnCreate prev own = finalizeStats resetsOnCreate prev' own
+
+/-- the code as it is: the second of two identical runs in one process reports twice the checks
+    (`C20:trace-differs-in-process:dst-api:buggify-stats-cumulative`, replayed on every run) -/
+theorem result_stats_depend_on_earlier_runs_counterexample : ¬ C20_result_stats_independent_of_earlier_runs false := by
+  intro h
+  have := h [(0, 31)] [] [(0, 31)]
+  revert this
+  decide
+
+/-- the repaired code -/
+theorem result_stats_independent_of_earlier_runs : C20_result_stats_independent_of_earlier_runs true :=
+  fun _ _ _ => rfl
+
+example : finalizeStats false [(0, 31)] [(0, 31)] = [(0, 62)] ∧ finalizeStats true [(0, 31)] [(0, 31)] = [(0, 31)] := by decide
 
 end C20
 end RedisVerif
